@@ -348,6 +348,26 @@ VARIANTS = [
     {"name": "P4 newline escaping through a static helper", "expect": "silent",
      "edits": [{"file": LLSD, "old": 'return super().STRING(v).replace(b"\\n", b"\\\\n")',
                 "new": 'return self._esc(super().STRING(v))\n\n    @staticmethod\n    def _esc(raw):\n        return raw.replace(b"\\n", b"\\\\n")'}]},
+    # ------------------------------------------------------------------ round 5
+    {"name": "R1 LLSD table loses its U64 row", "file": PACK, "expect": "C12.R1",
+     "old": "        MsgType.MVT_U64: _make_struct_spec('!Q'),\n        MsgType.MVT_S64: _make_struct_spec('!q'),\n        # These are arrays",
+     "new": "        MsgType.MVT_S64: _make_struct_spec('!q'),\n        # These are arrays"},
+    {"name": "R1 LLSD table loses its quaternion row", "file": PACK, "expect": "C12.R1",
+     "old": "        MsgType.MVT_LLVector4: _make_llsd_tuplecoord_spec(Vector4),\n        MsgType.MVT_LLQuaternion: _make_llsd_tuplecoord_spec(Quaternion, needed_elems=3)\n",
+     "new": "        MsgType.MVT_LLVector4: _make_llsd_tuplecoord_spec(Vector4),\n"},
+    {"name": "R6 coordinate registration loop misses Vector2", "file": LLSD, "expect": "C12.R6",
+     "old": "        self.type_map[Vector2] = self.TUPLECOORD\n        self.type_map[Vector3] = self.TUPLECOORD\n"
+            "        self.type_map[Vector4] = self.TUPLECOORD\n        self.type_map[Quaternion] = self.TUPLECOORD\n",
+     "new": "        for klass in [Quaternion, Vector4, Vector3]:\n            self.type_map[klass] = self.TUPLECOORD\n"},
+    {"name": "R6 one registration line deleted", "file": LLSD, "expect": "C12.R6",
+     "old": "        self.type_map[Vector4] = self.TUPLECOORD\n", "new": ""},
+    {"name": "P6 coordinate classes registered from a class-level tuple", "expect": "silent",
+     "edits": [{"file": LLSD, "old": "    UUID: callable\n    ARRAY: callable\n",
+                "new": "    UUID: callable\n    ARRAY: callable\n    _COORDS = (Quaternion, Vector4, Vector3, Vector2)\n"},
+               {"file": LLSD,
+                "old": "        self.type_map[Vector2] = self.TUPLECOORD\n        self.type_map[Vector3] = self.TUPLECOORD\n"
+                       "        self.type_map[Vector4] = self.TUPLECOORD\n        self.type_map[Quaternion] = self.TUPLECOORD\n",
+                "new": "        for klass in self._COORDS:\n            self.type_map[klass] = self.TUPLECOORD\n"}]},
     # ------------------------------------------------------------------ documented limits
     {"name": "X quaternion packed with two components (count still accepted by the constructor)", "file": PACK, "expect": "miss",
      "old": "MsgType.MVT_LLQuaternion: _make_llsd_tuplecoord_spec(Quaternion, needed_elems=3)",
